@@ -1,26 +1,1119 @@
-//! C06 - not built yet.
-use crate::engine::{PropertyInfo, RunCtx};
+//! C06 - task scheduling follows the IEC 61131-3 task model on every timeline.
+//!
+//! A case is a `Scenario`: a CONFIGURATION (1-6 TASKs with INTERVAL from
+//! {0, 1 ms, 3 ms, 7 ms, 10 ms, 1 s}, PRIORITY with deliberate duplicates, SINGLE variables
+//! shared between tasks, tasks with both triggers; 1-6 program instances with or without a
+//! task; FB instances associated with tasks) plus a timeline (1-40 cycles; before each
+//! cycle the scheduler clock is set to the next clock value and SINGLE variables are
+//! written). Every program/FB body appends its id to a global log array, bumps its own
+//! counter and possibly writes a SINGLE variable.
+//!
+//! Oracle: an independent model of the task model as stated by the property text and
+//! docs/specs/10-runtime.md section 4.3/4.4 (see `Model`). The SINGLE values the model
+//! sees are the values the variables hold immediately before `execute_cycle` is called
+//! (read from the runtime's globals), so program bodies writing SINGLE variables are just
+//! another source of SINGLE changes; nothing about expression evaluation is modelled.
+//!
+//! Compared per cycle: the task sequence from TaskStart/TaskEnd events, the unit sequence
+//! from the log array, per-unit counters, `task_overrun_count` and TaskOverrun events.
+
+use proptest::prelude::*;
+use serde::{Deserialize, Serialize};
+use serde_json::json;
+use trust_runtime::debug::RuntimeEvent;
+use trust_runtime::harness::TestHarness;
+use trust_runtime::value::{Duration, Value};
+
+use crate::engine::tape::{Reader, Tape};
+use crate::engine::{Probe, PropertyInfo, RunCtx};
 
 pub fn info() -> PropertyInfo {
     PropertyInfo {
         id: "C06",
         level: "exploration",
-        rule: "not built yet",
-        assumptions: &[],
-        workers_quick: 1,
-        workers_thorough: 1,
+        rule: "case = generated CONFIGURATION text (1-6 tasks, INTERVAL in {0,1ms,3ms,7ms,10ms,1s}, duplicate priorities, shared SINGLE variables, tasks with both triggers, 1-6 program instances with/without task, task-associated FB instances) + timeline of 1-40 cycles (clock steps 0 / <interval / =interval / k*interval+r / huge; SINGLE variables set, held, cleared by the harness and toggled by program bodies); non-trivial = some cycle has >= 2 ready tasks, an equal-priority tie, an overrun, an event activation coinciding with a periodic one, or a SINGLE variable held TRUE across consecutive cycles; distinct by SHA-256 of the serialized scenario",
+        assumptions: &[
+            "SINGLE is sampled once per execute_cycle, before any task runs (10-runtime.md 4.3/4.4: event_due = single_prev = FALSE and single_now = TRUE; execute_cycle determines due tasks and then invokes them); a pulse that rises and falls between two samples is not an edge",
+            "for a task with SINGLE and INTERVAL>0, 'elapsed since the last activation' = since the last periodic activation (formula of 10-runtime.md 4.3; reading fixed in DESIGN.md); an event activation does not restart the period",
+            "the period of a task that has not been activated yet is measured from the configuration start (t = 0): a periodic task is not due at t = 0",
+            "due time of a periodic activation = last activation + INTERVAL, of an event activation = the clock value of the cycle that samples the edge",
+            "scheduler clock values are i64 nanoseconds set with Runtime::set_current_time (what ResourceRunner does), monotone, at most 2^62 ns",
+            "multiple instances of one PROGRAM type are rejected by the pinned compiler, so every instance has its own type",
+        ],
+        workers_quick: 8,
+        workers_thorough: 16,
         address_space_limit: 0,
         watchdog_quick_s: 600,
-        watchdog_thorough_s: 3600,
+        watchdog_thorough_s: 7200,
         run,
     }
 }
 
-/// Helper subcommands (child processes of this check); None = not mine.
-pub fn helper(_args: &[String]) -> Option<i32> {
-    None
+// ---------------------------------------------------------------------------------------
+// Scenario
+// ---------------------------------------------------------------------------------------
+
+const LOG_LEN: usize = 32;
+const MAX_TIME: i64 = 1 << 62;
+
+#[derive(Clone, Debug, Serialize, Deserialize, PartialEq)]
+pub struct TaskSpec {
+    pub interval_ns: i64,
+    pub single: Option<usize>,
+    pub priority: u32,
+    /// Leave INTERVAL out of the TASK initialisation (only when interval_ns == 0).
+    #[serde(default)]
+    pub omit_interval: bool,
+}
+
+/// What a body does to a SINGLE variable after logging itself.
+/// kind: 0 `v := NOT v`, 1 `v := TRUE`, 2 `v := FALSE`, 3 TRUE on odd executions else FALSE.
+#[derive(Clone, Debug, Serialize, Deserialize, PartialEq)]
+pub struct Action {
+    pub var: usize,
+    pub kind: u8,
+}
+
+#[derive(Clone, Debug, Serialize, Deserialize, PartialEq)]
+pub struct FbSpec {
+    pub task: usize,
+    pub action: Option<Action>,
+}
+
+#[derive(Clone, Debug, Serialize, Deserialize, PartialEq)]
+pub struct ProgSpec {
+    pub task: Option<usize>,
+    pub action: Option<Action>,
+    #[serde(default)]
+    pub fbs: Vec<FbSpec>,
+}
+
+#[derive(Clone, Debug, Serialize, Deserialize, PartialEq)]
+pub struct Step {
+    /// Clock step before the cycle (nanoseconds, >= 0).
+    pub dt_ns: i64,
+    /// SINGLE variable writes before the cycle.
+    #[serde(default)]
+    pub writes: Vec<(usize, bool)>,
+}
+
+#[derive(Clone, Debug, Serialize, Deserialize, PartialEq)]
+pub struct Scenario {
+    /// Initial values of the SINGLE variables g_s0, g_s1, ...
+    pub vars: Vec<bool>,
+    pub tasks: Vec<TaskSpec>,
+    pub programs: Vec<ProgSpec>,
+    /// Wrap tasks/programs in RESOURCE ... ON PLC.
+    #[serde(default)]
+    pub resource: bool,
+    pub steps: Vec<Step>,
+}
+
+fn prog_id(p: usize) -> i64 {
+    1 + p as i64
+}
+
+fn fb_id(p: usize, f: usize) -> i64 {
+    100 + 10 * p as i64 + f as i64
+}
+
+fn time_literal(ns: i64) -> String {
+    if ns > 0 && ns % 1_000_000_000 == 0 {
+        format!("T#{}s", ns / 1_000_000_000)
+    } else {
+        format!("T#{}ms", ns / 1_000_000)
+    }
+}
+
+fn body(out: &mut String, id: i64, action: &Option<Action>) {
+    out.push_str(&format!(
+        "IF g_idx < DINT#{LOG_LEN} THEN\n  g_log[g_idx] := DINT#{id};\n  g_idx := g_idx + DINT#1;\nEND_IF;\ncnt := cnt + DINT#1;\n"
+    ));
+    if let Some(a) = action {
+        let v = format!("g_s{}", a.var);
+        match a.kind % 4 {
+            0 => out.push_str(&format!("{v} := NOT {v};\n")),
+            1 => out.push_str(&format!("{v} := TRUE;\n")),
+            2 => out.push_str(&format!("{v} := FALSE;\n")),
+            _ => out.push_str(&format!(
+                "IF (cnt MOD DINT#2) = DINT#1 THEN\n  {v} := TRUE;\nELSE\n  {v} := FALSE;\nEND_IF;\n"
+            )),
+        }
+    }
+}
+
+fn externals(out: &mut String, action: &Option<Action>) {
+    out.push_str("VAR_EXTERNAL\n");
+    out.push_str(&format!("  g_log : ARRAY[0..{}] OF DINT;\n", LOG_LEN - 1));
+    out.push_str("  g_idx : DINT;\n");
+    if let Some(a) = action {
+        out.push_str(&format!("  g_s{} : BOOL;\n", a.var));
+    }
+    out.push_str("END_VAR\n");
+}
+
+pub fn render(s: &Scenario) -> String {
+    let mut out = String::new();
+    for (p, prog) in s.programs.iter().enumerate() {
+        for (f, fb) in prog.fbs.iter().enumerate() {
+            out.push_str(&format!("FUNCTION_BLOCK Fb{p}_{f}\n"));
+            externals(&mut out, &fb.action);
+            out.push_str("VAR\n  cnt : DINT := 0;\nEND_VAR\n");
+            body(&mut out, fb_id(p, f), &fb.action);
+            out.push_str("END_FUNCTION_BLOCK\n\n");
+        }
+    }
+    for (p, prog) in s.programs.iter().enumerate() {
+        out.push_str(&format!("PROGRAM Prog{p}\n"));
+        externals(&mut out, &prog.action);
+        out.push_str("VAR\n  cnt : DINT := 0;\n");
+        for f in 0..prog.fbs.len() {
+            out.push_str(&format!("  fb{f} : Fb{p}_{f};\n"));
+        }
+        out.push_str("END_VAR\n");
+        body(&mut out, prog_id(p), &prog.action);
+        out.push_str("END_PROGRAM\n\n");
+    }
+    out.push_str("CONFIGURATION Conf\n");
+    if s.resource {
+        out.push_str("RESOURCE Res ON PLC\n");
+    }
+    out.push_str("VAR_GLOBAL\n");
+    out.push_str(&format!("  g_log : ARRAY[0..{}] OF DINT;\n", LOG_LEN - 1));
+    out.push_str("  g_idx : DINT := 0;\n");
+    for (i, init) in s.vars.iter().enumerate() {
+        out.push_str(&format!(
+            "  g_s{i} : BOOL := {};\n",
+            if *init { "TRUE" } else { "FALSE" }
+        ));
+    }
+    out.push_str("END_VAR\n");
+    for (t, task) in s.tasks.iter().enumerate() {
+        let mut parts = Vec::new();
+        if let Some(v) = task.single {
+            parts.push(format!("SINGLE := g_s{v}"));
+        }
+        if !(task.omit_interval && task.interval_ns == 0) {
+            parts.push(format!("INTERVAL := {}", time_literal(task.interval_ns)));
+        }
+        // PRIORITY is mandatory for the pinned checker (E306)
+        parts.push(format!("PRIORITY := {}", task.priority));
+        out.push_str(&format!("TASK T{t} ({});\n", parts.join(", ")));
+    }
+    for (p, prog) in s.programs.iter().enumerate() {
+        out.push_str(&format!("PROGRAM P{p}"));
+        if let Some(t) = prog.task {
+            out.push_str(&format!(" WITH T{t}"));
+        }
+        out.push_str(&format!(" : Prog{p}"));
+        if !prog.fbs.is_empty() {
+            let list: Vec<String> = prog
+                .fbs
+                .iter()
+                .enumerate()
+                .map(|(f, fb)| format!("fb{f} WITH T{}", fb.task))
+                .collect();
+            out.push_str(&format!(" ({})", list.join(", ")));
+        }
+        out.push_str(";\n");
+    }
+    if s.resource {
+        out.push_str("END_RESOURCE\n");
+    }
+    out.push_str("END_CONFIGURATION\n");
+    out
+}
+
+// ---------------------------------------------------------------------------------------
+// Generator (function of a choice tape)
+// ---------------------------------------------------------------------------------------
+
+fn gen_action(r: &mut Reader, nvars: usize, num: u32, den: u32) -> Option<Action> {
+    if nvars > 0 && r.chance(num, den) {
+        Some(Action {
+            var: r.pick(nvars),
+            kind: r.pick(4) as u8,
+        })
+    } else {
+        None
+    }
+}
+
+fn gen_dt(r: &mut Reader, positive: &[i64]) -> i64 {
+    let i = if positive.is_empty() {
+        1_000_000
+    } else {
+        positive[r.pick(positive.len())]
+    };
+    match r.weighted(&[2, 10, 10, 6, 8, 4, 1]) {
+        0 => 0,
+        1 => [1_000_000, 2_000_000, 5_000_000][r.pick(3)],
+        2 => i,
+        3 => [1, i / 2, i - 1][r.pick(3)],
+        4 => {
+            let k = 2 + r.pick(5) as i64;
+            let rem = [0, 1, i / 2, i - 1][r.pick(4)];
+            k.saturating_mul(i).saturating_add(rem)
+        }
+        5 => i + 1,
+        _ => [
+            1_000_000_000_000,
+            1 << 40,
+            1_000_000_000_000_007,
+            3_600_000_000_000,
+            86_400_000_000_000,
+            1_000_000_000_001,
+            1 << 55,
+            MAX_TIME,
+        ][r.pick(8)],
+    }
+}
+
+/// One tape word. `any::<u32>()` shrinks towards 0 = the simplest alternative of a choice.
+fn word() -> impl Strategy<Value = u32> {
+    prop_oneof![
+        8 => any::<u32>(),
+        1 => (0u32..16).prop_map(|v| v << 28),
+        1 => Just(0u32),
+    ]
+}
+
+fn words(n: usize) -> impl Strategy<Value = Tape> {
+    proptest::collection::vec(word(), n).prop_map(|data| Tape { data })
+}
+
+/// The scenario is assembled from one small fixed-length tape per element (variables,
+/// each task, each program, each step), so that proptest shrinks by dropping whole tasks,
+/// programs and steps and by lowering single choices; references are `pick(len)` and stay
+/// valid when elements disappear.
+pub fn scenario_strategy() -> impl Strategy<Value = Scenario> {
+    (
+        words(4),
+        proptest::collection::vec(words(5), 1..=6),
+        proptest::collection::vec(words(12), 1..=6),
+        any::<bool>(),
+        proptest::collection::vec(words(10), 1..=40),
+    )
+        .prop_map(|(v, t, p, resource, st)| build_scenario(&v, &t, &p, resource, &st))
+}
+
+pub fn build_scenario(v: &Tape, t: &[Tape], p: &[Tape], resource: bool, st: &[Tape]) -> Scenario {
+    let mut r = Reader::new(v);
+    let nvars = r.weighted(&[1, 3, 3, 2]);
+    // initially TRUE: no rising edge at the first sample
+    let vars: Vec<bool> = (0..nvars).map(|_| r.pick(8) == 5).collect();
+    let ntasks = t.len();
+    let mut tasks = Vec::new();
+    for tape in t {
+        let mut r = Reader::new(tape);
+        let interval_ns = [1_000_000, 3_000_000, 0, 7_000_000, 10_000_000, 1_000_000_000]
+            [r.weighted(&[4, 4, 3, 3, 3, 1])];
+        let single = if nvars > 0 && r.chance(1, 2) {
+            Some(r.pick(nvars))
+        } else {
+            None
+        };
+        let priority = match r.weighted(&[5, 3, 1]) {
+            0 => r.pick(3) as u32,
+            1 => r.pick(2) as u32,
+            _ => [7, 100, 65535][r.pick(3)],
+        };
+        let omit_interval = interval_ns == 0 && r.chance(1, 3);
+        tasks.push(TaskSpec {
+            interval_ns,
+            single,
+            priority,
+            omit_interval,
+        });
+    }
+    let mut programs = Vec::new();
+    let mut total_fbs = 0;
+    for tape in p {
+        let mut r = Reader::new(tape);
+        let task = if r.chance(3, 4) {
+            Some(r.pick(ntasks))
+        } else {
+            None
+        };
+        let action = gen_action(&mut r, nvars, 1, 3);
+        let mut fbs = Vec::new();
+        let nf = r.weighted(&[6, 2, 1]);
+        for _ in 0..nf {
+            if total_fbs >= 6 {
+                break;
+            }
+            total_fbs += 1;
+            let task = r.pick(ntasks);
+            let action = gen_action(&mut r, nvars, 1, 4);
+            fbs.push(FbSpec { task, action });
+        }
+        programs.push(ProgSpec { task, action, fbs });
+    }
+    let positive: Vec<i64> = tasks
+        .iter()
+        .map(|t| t.interval_ns)
+        .filter(|i| *i > 0)
+        .collect();
+    let mut steps = Vec::new();
+    for tape in st {
+        let mut r = Reader::new(tape);
+        let dt_ns = gen_dt(&mut r, &positive);
+        let mut writes = Vec::new();
+        for v in 0..nvars {
+            match r.weighted(&[5, 1, 1]) {
+                0 => {}
+                1 => writes.push((v, true)),
+                _ => writes.push((v, false)),
+            }
+        }
+        steps.push(Step { dt_ns, writes });
+    }
+    Scenario {
+        vars,
+        tasks,
+        programs,
+        resource,
+        steps,
+    }
+}
+
+// ---------------------------------------------------------------------------------------
+// Model (the oracle)
+// ---------------------------------------------------------------------------------------
+
+#[derive(Clone, Debug)]
+struct TaskModel {
+    /// SINGLE value at the previous sample (initially: the declared initial value).
+    last_single: bool,
+    /// Clock value of the last periodic activation (configuration start = 0 before any).
+    last_periodic: i128,
+    overruns: u64,
+    /// SINGLE was sampled TRUE since the last periodic activation (both-trigger tasks):
+    /// whether the activations suppressed meanwhile count as "missed" is not stated
+    /// anywhere, so the overrun increment of the next periodic activation is not asserted.
+    suppressed_since_periodic: bool,
+}
+
+#[derive(Clone, Debug)]
+struct Ready {
+    task: usize,
+    due_at: i128,
+    event: bool,
+    missed: u64,
+    missed_unasserted: bool,
+}
+
+struct Model {
+    tasks: Vec<TaskModel>,
+}
+
+impl Model {
+    fn new(s: &Scenario) -> Model {
+        Model {
+            tasks: s
+                .tasks
+                .iter()
+                .map(|t| TaskModel {
+                    last_single: t.single.map(|v| s.vars[v]).unwrap_or(false),
+                    last_periodic: 0,
+                    overruns: 0,
+                    suppressed_since_periodic: false,
+                })
+                .collect(),
+        }
+    }
+
+    /// One scheduling decision: `now` = clock value, `samples` = SINGLE variable values at
+    /// the start of the cycle. Returns the ready list in execution order.
+    fn step(&mut self, s: &Scenario, now: i128, samples: &[bool]) -> Vec<Ready> {
+        let mut ready: Vec<Ready> = Vec::new();
+        for (idx, spec) in s.tasks.iter().enumerate() {
+            let st = &mut self.tasks[idx];
+            let single_now = spec.single.map(|v| samples[v]).unwrap_or(false);
+            let interval = spec.interval_ns as i128;
+            // event-driven: each rising edge of SINGLE
+            let event_due = !st.last_single && single_now;
+            // A variable that is TRUE from initialisation on has not risen: `last_single`
+            // starts from the declared initial value, so the first sample is no edge.
+            // periodic: INTERVAL > 0, SINGLE false, at least INTERVAL elapsed
+            let elapsed = now - st.last_periodic;
+            let periodic_due = interval > 0 && !single_now && elapsed >= interval;
+            if single_now && interval > 0 {
+                st.suppressed_since_periodic = true;
+            }
+            if periodic_due {
+                let n = (elapsed / interval) as u64;
+                let missed = n - 1;
+                let unasserted = st.suppressed_since_periodic;
+                st.overruns = st.overruns.saturating_add(missed);
+                ready.push(Ready {
+                    task: idx,
+                    due_at: st.last_periodic + interval,
+                    event: false,
+                    missed,
+                    missed_unasserted: unasserted,
+                });
+                st.last_periodic = now;
+                st.suppressed_since_periodic = false;
+            } else if event_due {
+                ready.push(Ready {
+                    task: idx,
+                    due_at: now,
+                    event: true,
+                    missed: 0,
+                    missed_unasserted: false,
+                });
+            }
+            st.last_single = single_now;
+        }
+        // ascending PRIORITY number, earlier due time, declaration order
+        ready.sort_by_key(|r| (s.tasks[r.task].priority, r.due_at, r.task));
+        ready
+    }
+}
+
+// ---------------------------------------------------------------------------------------
+// Execution against the real runtime
+// ---------------------------------------------------------------------------------------
+
+fn as_i64(v: &Value) -> Option<i64> {
+    Some(match v {
+        Value::SInt(x) => *x as i64,
+        Value::Int(x) => *x as i64,
+        Value::DInt(x) => *x as i64,
+        Value::LInt(x) => *x,
+        Value::USInt(x) => *x as i64,
+        Value::UInt(x) => *x as i64,
+        Value::UDInt(x) => *x as i64,
+        Value::ULInt(x) => i64::try_from(*x).ok()?,
+        _ => return None,
+    })
+}
+
+#[derive(Default)]
+pub struct Classes {
+    pub multi_ready: bool,
+    pub tie: bool,
+    pub tie_due_decides: bool,
+    pub overrun: bool,
+    pub coincidence: bool,
+    pub held_high: bool,
+    pub blocked_periodic: bool,
+    pub both_event: bool,
+    pub init_true_first: bool,
+    pub bg_decl_order: bool,
+    pub bg_other_order: bool,
+    pub fb_after_programs: bool,
+    pub fb_interleaved: bool,
+    pub unasserted_overrun: bool,
+    pub background: bool,
+    pub fb_ran: bool,
+    pub huge: bool,
+    pub never_due_task: bool,
+    pub prog_toggle_edge: bool,
+    pub ready_cycles: u32,
+    pub cycles: u32,
+}
+
+pub struct Outcome {
+    pub classes: Classes,
+    pub trace: Vec<String>,
+}
+
+enum Fail {
+    /// The generated text was not accepted or the harness could not observe (not a verdict).
+    Infra(String),
+    Violation(String),
+}
+
+fn unit_name(id: i64) -> String {
+    if id >= 100 {
+        format!("P{}.fb{}", (id - 100) / 10, (id - 100) % 10)
+    } else {
+        format!("P{}", id - 1)
+    }
+}
+
+fn run_scenario(s: &Scenario, want_trace: bool) -> Result<Outcome, Fail> {
+    let text = render(s);
+    let mut h = match crate::engine::catch(|| TestHarness::from_source(&text)) {
+        Ok(Ok(h)) => h,
+        Ok(Err(e)) => return Err(Fail::Infra(format!("configuration rejected: {e}"))),
+        Err(p) => return Err(Fail::Violation(format!("compiling the configuration panicked: {p}\n{text}"))),
+    };
+    let debug = h.runtime_mut().enable_debug();
+    let _ = debug.drain_runtime_events();
+
+    // static structure
+    let ntasks = s.tasks.len();
+    let mut task_programs: Vec<Vec<i64>> = vec![Vec::new(); ntasks];
+    let mut task_fbs: Vec<Vec<i64>> = vec![Vec::new(); ntasks];
+    let mut background: Vec<i64> = Vec::new();
+    for (p, prog) in s.programs.iter().enumerate() {
+        match prog.task {
+            Some(t) => task_programs[t].push(prog_id(p)),
+            None => background.push(prog_id(p)),
+        }
+        for (f, fb) in prog.fbs.iter().enumerate() {
+            task_fbs[fb.task].push(fb_id(p, f));
+        }
+    }
+    let mut counts: std::collections::BTreeMap<i64, i64> = std::collections::BTreeMap::new();
+    for (p, prog) in s.programs.iter().enumerate() {
+        counts.insert(prog_id(p), 0);
+        for f in 0..prog.fbs.len() {
+            counts.insert(fb_id(p, f), 0);
+        }
+    }
+
+    let mut model = Model::new(s);
+    let mut classes = Classes::default();
+    let mut trace = Vec::new();
+    let mut now: i64 = 0;
+    let mut prev_samples: Option<Vec<bool>> = None;
+    let mut prev_after: Option<Vec<bool>> = None;
+
+    for (k, step) in s.steps.iter().enumerate() {
+        now = now.saturating_add(step.dt_ns.max(0)).min(MAX_TIME);
+        if step.dt_ns >= 1_000_000_000_000 {
+            classes.huge = true;
+        }
+        h.runtime_mut().set_current_time(Duration::from_nanos(now));
+        for (v, val) in &step.writes {
+            if *v < s.vars.len() {
+                h.runtime_mut()
+                    .storage_mut()
+                    .set_global(format!("g_s{v}"), Value::Bool(*val));
+            }
+        }
+        h.runtime_mut()
+            .storage_mut()
+            .set_global("g_idx", Value::DInt(0));
+        // SINGLE values at the start of the cycle
+        let mut samples = Vec::new();
+        for v in 0..s.vars.len() {
+            match h.runtime().storage().get_global(&format!("g_s{v}")) {
+                Some(Value::Bool(b)) => samples.push(*b),
+                other => {
+                    return Err(Fail::Infra(format!("g_s{v} is not a BOOL global: {other:?}")))
+                }
+            }
+        }
+        let overruns_before: Vec<u64> = model.tasks.iter().map(|t| t.overruns).collect();
+        let expected = model.step(s, now as i128, &samples);
+
+        // classification of the cycle (from the model)
+        classes.cycles += 1;
+        let firm: Vec<&Ready> = expected.iter().collect();
+        if !firm.is_empty() {
+            classes.ready_cycles += 1;
+        }
+        if firm.len() >= 2 {
+            classes.multi_ready = true;
+            for w in firm.windows(2) {
+                if s.tasks[w[0].task].priority == s.tasks[w[1].task].priority {
+                    classes.tie = true;
+                    if w[0].task > w[1].task {
+                        classes.tie_due_decides = true;
+                    }
+                }
+            }
+        }
+        if firm.iter().any(|r| r.missed > 0 && !r.missed_unasserted) {
+            classes.overrun = true;
+        }
+        if firm.iter().any(|r| r.event) && firm.iter().any(|r| !r.event) {
+            classes.coincidence = true;
+        }
+        if k == 0
+            && s.tasks.iter().any(|t| t.single.map(|v| s.vars[v] && samples[v]).unwrap_or(false))
+        {
+            classes.init_true_first = true;
+        }
+        if expected.iter().any(|r| r.missed_unasserted) {
+            classes.unasserted_overrun = true;
+        }
+        if let Some(prev) = &prev_samples {
+            for t in &s.tasks {
+                if let Some(v) = t.single {
+                    if prev[v] && samples[v] {
+                        classes.held_high = true;
+                        if t.interval_ns > 0 {
+                            classes.blocked_periodic = true;
+                        }
+                    }
+                }
+            }
+        }
+        if let Some(after) = &prev_after {
+            // an edge made by a program body of the previous cycle and still visible now
+            if let Some(prev) = &prev_samples {
+                for t in &s.tasks {
+                    if let Some(v) = t.single {
+                        let written = s.steps[k].writes.iter().any(|(w, _)| *w == v);
+                        if !prev[v] && after[v] && samples[v] && !written {
+                            classes.prog_toggle_edge = true;
+                        }
+                    }
+                }
+            }
+        }
+        if firm
+            .iter()
+            .any(|r| r.event && s.tasks[r.task].interval_ns > 0)
+        {
+            classes.both_event = true;
+        }
+
+        // run the cycle
+        let result = match crate::engine::catch(|| h.cycle()) {
+            Ok(r) => r,
+            Err(p) => {
+                return Err(Fail::Violation(format!(
+                    "cycle {k} (t = {now} ns) panicked: {p}\n{text}"
+                )))
+            }
+        };
+        let events = debug.drain_runtime_events();
+        let describe = |msg: String| -> Fail {
+            let exp: Vec<String> = expected
+                .iter()
+                .map(|r| {
+                    format!(
+                        "T{}(prio {}, due_at {}, {})",
+                        r.task,
+                        s.tasks[r.task].priority,
+                        r.due_at,
+                        if r.event { "event" } else { "periodic" }
+                    )
+                })
+                .collect();
+            Fail::Violation(format!(
+                "cycle {k} (t = {now} ns, SINGLE samples {samples:?}): {msg}\n  model ready list: [{}]\n  events: {}\n{text}",
+                exp.join(", "),
+                events
+                    .iter()
+                    .filter_map(|e| match e {
+                        RuntimeEvent::TaskStart { name, .. } => Some(format!("start {name}")),
+                        RuntimeEvent::TaskEnd { name, .. } => Some(format!("end {name}")),
+                        RuntimeEvent::TaskOverrun { name, missed, .. } =>
+                            Some(format!("overrun {name} missed={missed}")),
+                        RuntimeEvent::Fault { error, .. } => Some(format!("fault {error}")),
+                        _ => None,
+                    })
+                    .collect::<Vec<_>>()
+                    .join(", ")
+            ))
+        };
+        if let Some(err) = result.errors.first() {
+            return Err(describe(format!("the cycle returned an error: {err}")));
+        }
+
+        // (1) task sequence from TaskStart/TaskEnd events
+        let mut observed: Vec<usize> = Vec::new();
+        let mut open: Option<usize> = None;
+        let mut overrun_events: Vec<u64> = vec![0; ntasks];
+        for e in &events {
+            match e {
+                RuntimeEvent::TaskStart { name, .. } => {
+                    let Some(t) = name.strip_prefix('T').and_then(|n| n.parse::<usize>().ok()) else {
+                        return Err(describe(format!("TaskStart for unknown task {name}")));
+                    };
+                    if t >= ntasks {
+                        return Err(describe(format!("TaskStart for unknown task {name}")));
+                    }
+                    if let Some(o) = open {
+                        return Err(describe(format!("TaskStart {name} while T{o} has not ended")));
+                    }
+                    open = Some(t);
+                    observed.push(t);
+                }
+                RuntimeEvent::TaskEnd { name, .. } => {
+                    let t = name.strip_prefix('T').and_then(|n| n.parse::<usize>().ok());
+                    if open.is_none() || t != open {
+                        return Err(describe(format!("TaskEnd {name} does not match the open task {open:?}")));
+                    }
+                    open = None;
+                }
+                RuntimeEvent::TaskOverrun { name, missed, .. } => {
+                    let Some(t) = name.strip_prefix('T').and_then(|n| n.parse::<usize>().ok()) else {
+                        return Err(describe(format!("TaskOverrun for unknown task {name}")));
+                    };
+                    if t >= ntasks {
+                        return Err(describe(format!("TaskOverrun for unknown task {name}")));
+                    }
+                    overrun_events[t] = overrun_events[t].saturating_add(*missed);
+                }
+                _ => {}
+            }
+        }
+        if let Some(o) = open {
+            return Err(describe(format!("T{o} started but never ended")));
+        }
+        // exactly the due tasks, in model order, each once
+        {
+            let want: Vec<usize> = expected.iter().map(|r| r.task).collect();
+            if observed != want {
+                return Err(describe(format!(
+                    "executed task sequence [{}] differs from the model's [{}]",
+                    observed.iter().map(|t| format!("T{t}")).collect::<Vec<_>>().join(" "),
+                    want.iter().map(|t| format!("T{t}")).collect::<Vec<_>>().join(" ")
+                )));
+            }
+        }
+
+        // (2) unit sequence from the log array
+        let idx = match h.runtime().storage().get_global("g_idx").and_then(as_i64) {
+            Some(i) if (0..=LOG_LEN as i64).contains(&i) => i as usize,
+            other => return Err(Fail::Infra(format!("g_idx unreadable: {other:?}"))),
+        };
+        let log: Vec<i64> = match h.runtime().storage().get_global("g_log") {
+            Some(Value::Array(a)) if a.elements.len() == LOG_LEN => {
+                let mut v = Vec::new();
+                for e in &a.elements[..idx] {
+                    match as_i64(e) {
+                        Some(x) => v.push(x),
+                        None => return Err(Fail::Infra(format!("log element unreadable: {e:?}"))),
+                    }
+                }
+                v
+            }
+            other => return Err(Fail::Infra(format!("g_log unreadable: {other:?}"))),
+        };
+        let names = |ids: &[i64]| ids.iter().map(|i| unit_name(*i)).collect::<Vec<_>>().join(" ");
+        let mut pos = 0;
+        for t in &observed {
+            let n = task_programs[*t].len() + task_fbs[*t].len();
+            if pos + n > log.len() {
+                return Err(describe(format!(
+                    "log [{}] is too short: T{t} should contribute {n} unit(s) from position {pos}",
+                    names(&log)
+                )));
+            }
+            let group = &log[pos..pos + n];
+            // programs of the task in declaration order (10-runtime.md 4.4); FB instances
+            // each once, position inside the task not asserted
+            let progs: Vec<i64> = group.iter().copied().filter(|i| *i < 100).collect();
+            let mut fbs: Vec<i64> = group.iter().copied().filter(|i| *i >= 100).collect();
+            fbs.sort();
+            let mut want_fbs = task_fbs[*t].clone();
+            want_fbs.sort();
+            if progs != task_programs[*t] || fbs != want_fbs {
+                return Err(describe(format!(
+                    "log [{}]: position {pos}..{} should hold the units of T{t} (programs [{}] in declaration order, FB instances [{}]), found [{}]",
+                    names(&log),
+                    pos + n,
+                    names(&task_programs[*t]),
+                    names(&task_fbs[*t]),
+                    names(group)
+                )));
+            }
+            if !fbs.is_empty() {
+                classes.fb_ran = true;
+                // observed, not asserted: FB instances after the programs of the task
+                let first_fb = group.iter().position(|i| *i >= 100).unwrap_or(0);
+                if !progs.is_empty() {
+                    if group[first_fb..].iter().all(|i| *i >= 100) {
+                        classes.fb_after_programs = true;
+                    } else {
+                        classes.fb_interleaved = true;
+                    }
+                }
+            }
+            pos += n;
+        }
+        // followed by every program that has no task
+        {
+            let rest = &log[pos..];
+            let mut got = rest.to_vec();
+            got.sort();
+            let mut want = background.clone();
+            want.sort();
+            if got != want {
+                return Err(describe(format!(
+                    "log [{}]: after the task units (position {pos}) every program without a task [{}] must run exactly once, found [{}]",
+                    names(&log),
+                    names(&background),
+                    names(rest)
+                )));
+            }
+            if !background.is_empty() {
+                classes.background = true;
+            }
+            // observed, not asserted: order among the background programs
+            if background.len() >= 2 {
+                if rest == background.as_slice() {
+                    classes.bg_decl_order = true;
+                } else {
+                    classes.bg_other_order = true;
+                }
+            }
+        }
+        for id in &log {
+            *counts.entry(*id).or_default() += 1;
+        }
+
+        // (3) per-unit counters
+        for (p, prog) in s.programs.iter().enumerate() {
+            let pid = match h.runtime().storage().get_global(&format!("P{p}")) {
+                Some(Value::Instance(id)) => *id,
+                other => return Err(Fail::Infra(format!("P{p} is not an instance: {other:?}"))),
+            };
+            let got = h.runtime().storage().get_instance_var(pid, "cnt").and_then(as_i64);
+            if got != Some(counts[&prog_id(p)]) {
+                return Err(describe(format!(
+                    "counter of P{p} is {got:?}, the log says it ran {} time(s)",
+                    counts[&prog_id(p)]
+                )));
+            }
+            for f in 0..prog.fbs.len() {
+                let fid = match h.runtime().storage().get_instance_var(pid, &format!("fb{f}")) {
+                    Some(Value::Instance(id)) => *id,
+                    other => {
+                        return Err(Fail::Infra(format!("P{p}.fb{f} is not an instance: {other:?}")))
+                    }
+                };
+                let got = h.runtime().storage().get_instance_var(fid, "cnt").and_then(as_i64);
+                if got != Some(counts[&fb_id(p, f)]) {
+                    return Err(describe(format!(
+                        "counter of P{p}.fb{f} is {got:?}, the log says it ran {} time(s)",
+                        counts[&fb_id(p, f)]
+                    )));
+                }
+            }
+        }
+
+        // (4) overruns: counter and events
+        for t in 0..ntasks {
+            let got = h.runtime().task_overrun_count(&format!("T{t}"));
+            let Some(got) = got else {
+                return Err(Fail::Infra(format!("task_overrun_count(T{t}) = None")));
+            };
+            let unasserted = expected.iter().any(|r| r.task == t && r.missed_unasserted);
+            if unasserted {
+                // adopt what the runtime counted (see TaskModel::suppressed_since_periodic)
+                if got < overruns_before[t] {
+                    return Err(describe(format!(
+                        "overrun count of T{t} went down from {} to {got}",
+                        overruns_before[t]
+                    )));
+                }
+                model.tasks[t].overruns = got;
+                continue;
+            }
+            if got != model.tasks[t].overruns {
+                return Err(describe(format!(
+                    "task_overrun_count(T{t}) = {got}, model = {} (before this cycle {})",
+                    model.tasks[t].overruns, overruns_before[t]
+                )));
+            }
+            let want_missed = model.tasks[t].overruns - overruns_before[t];
+            if overrun_events[t] != want_missed {
+                return Err(describe(format!(
+                    "TaskOverrun events of T{t} report {} missed activation(s), model = {want_missed}",
+                    overrun_events[t]
+                )));
+            }
+        }
+
+        if want_trace {
+            trace.push(format!(
+                "cycle {k}: t={now} samples={samples:?} ready=[{}] log=[{}]",
+                expected
+                    .iter()
+                    .map(|r| format!(
+                        "T{}{}{}",
+                        r.task,
+                        if r.event { "e" } else { "p" },
+                        if r.missed > 0 { format!("(missed {})", r.missed) } else { String::new() }
+                    ))
+                    .collect::<Vec<_>>()
+                    .join(" "),
+                names(&log)
+            ));
+        }
+        // values after the cycle (to recognise edges made by program bodies)
+        let mut after = Vec::new();
+        for v in 0..s.vars.len() {
+            match h.runtime().storage().get_global(&format!("g_s{v}")) {
+                Some(Value::Bool(b)) => after.push(*b),
+                _ => after.push(false),
+            }
+        }
+        prev_after = Some(after);
+        prev_samples = Some(samples);
+    }
+    for (t, spec) in s.tasks.iter().enumerate() {
+        let has_units = s.programs.iter().any(|p| p.task == Some(t));
+        if spec.interval_ns == 0 && spec.single.is_none() && has_units {
+            classes.never_due_task = true;
+        }
+    }
+    Ok(Outcome { classes, trace })
+}
+
+fn well_formed(s: &Scenario) -> bool {
+    let nv = s.vars.len();
+    let nt = s.tasks.len();
+    !s.tasks.is_empty()
+        && nt <= 6
+        && !s.programs.is_empty()
+        && s.programs.len() <= 6
+        && nv <= 8
+        && s.tasks.iter().all(|t| {
+            t.interval_ns >= 0 && t.interval_ns % 1_000_000 == 0 && t.single.map(|v| v < nv).unwrap_or(true)
+        })
+        && s.programs.iter().all(|p| {
+            p.task.map(|t| t < nt).unwrap_or(true)
+                && p.action.as_ref().map(|a| a.var < nv).unwrap_or(true)
+                && p.fbs.len() <= 9
+                && p.fbs
+                    .iter()
+                    .all(|f| f.task < nt && f.action.as_ref().map(|a| a.var < nv).unwrap_or(true))
+        })
+        && s.programs.iter().map(|p| 1 + p.fbs.len()).sum::<usize>() <= LOG_LEN
+}
+
+fn check(s: &Scenario, probe: &mut Probe) -> Result<(), String> {
+    if !well_formed(s) {
+        probe.label("scenario=malformed");
+        return Ok(());
+    }
+    match run_scenario(s, false) {
+        Ok(out) => {
+            let c = &out.classes;
+            let mut any = false;
+            for (on, name) in [
+                (c.multi_ready, "class:ready>=2"),
+                (c.tie, "class:equal_priority_tie"),
+                (c.overrun, "class:overrun"),
+                (c.coincidence, "class:event+periodic"),
+                (c.held_high, "class:single_held_high"),
+            ] {
+                if on {
+                    probe.label(name);
+                    any = true;
+                }
+            }
+            for (on, name) in [
+                (c.tie_due_decides, "tie:due_time_beats_declaration_order"),
+                (c.blocked_periodic, "both:periodic_suppressed_by_single"),
+                (c.both_event, "both:event_activation"),
+                (c.init_true_first, "single:initially_true_at_first_sample"),
+                (c.unasserted_overrun, "unasserted:overrun_after_suppression"),
+                (c.background, "has:background_program"),
+                (c.fb_ran, "has:fb_executed_by_task"),
+                (c.huge, "has:huge_clock_step"),
+                (c.never_due_task, "has:task_never_due_with_programs"),
+                (c.prog_toggle_edge, "has:edge_made_by_program_body"),
+                (c.ready_cycles == 0, "no_task_ever_ready"),
+                (c.bg_decl_order, "observed:background_programs_in_declaration_order"),
+                (c.bg_other_order, "observed:background_programs_in_other_order"),
+                (c.fb_after_programs, "observed:task_fbs_after_task_programs"),
+                (c.fb_interleaved, "observed:task_fbs_before_or_between_task_programs"),
+            ] {
+                if on {
+                    probe.label(name);
+                }
+            }
+            probe.label("compile=accepted");
+            if any {
+                let key = serde_json::to_vec(s).unwrap_or_default();
+                probe.nontrivial(&key);
+                probe.sample(json!({
+                    "tasks": s.tasks.len(),
+                    "programs": s.programs.len(),
+                    "fbs": s.programs.iter().map(|p| p.fbs.len()).sum::<usize>(),
+                    "cycles": s.steps.len(),
+                    "cycles_with_ready_task": c.ready_cycles,
+                    "configuration": render(s).split("CONFIGURATION").nth(1).map(|t| format!("CONFIGURATION{t}")),
+                }));
+            }
+            Ok(())
+        }
+        Err(Fail::Infra(msg)) => {
+            probe.label("compile=rejected_or_unobservable");
+            probe.label(format!("infra: {}", msg.lines().next().unwrap_or("").chars().take(120).collect::<String>()));
+            Ok(())
+        }
+        Err(Fail::Violation(msg)) => Err(msg),
+    }
+}
+
+/// Helper subcommands: `tpv c06-show <replay-or-violation.json>` prints the configuration
+/// text and the per-cycle trace of a saved case.
+pub fn helper(args: &[String]) -> Option<i32> {
+    if args.first().map(|s| s.as_str()) != Some("c06-show") {
+        return None;
+    }
+    let Some(path) = args.get(1) else {
+        eprintln!("usage: tpv c06-show <file.json>");
+        return Some(2);
+    };
+    let text = match std::fs::read_to_string(path) {
+        Ok(t) => t,
+        Err(e) => {
+            eprintln!("{e}");
+            return Some(2);
+        }
+    };
+    let v: serde_json::Value = match serde_json::from_str(&text) {
+        Ok(v) => v,
+        Err(e) => {
+            eprintln!("{e}");
+            return Some(2);
+        }
+    };
+    let case = v.get("case").cloned().unwrap_or(v);
+    let s: Scenario = match serde_json::from_value(case) {
+        Ok(s) => s,
+        Err(e) => {
+            eprintln!("not a C06 scenario: {e}");
+            return Some(2);
+        }
+    };
+    crate::engine::install_quiet_panic_hook();
+    println!("{}", render(&s));
+    match run_scenario(&s, true) {
+        Ok(out) => {
+            for l in out.trace {
+                println!("{l}");
+            }
+            println!("held");
+            Some(0)
+        }
+        Err(Fail::Infra(m)) => {
+            println!("INFRA: {m}");
+            Some(2)
+        }
+        Err(Fail::Violation(m)) => {
+            println!("VIOLATION: {m}");
+            Some(1)
+        }
+    }
 }
 
 fn run(ctx: &mut RunCtx) {
-    ctx.inconclusive("check not built yet");
+    let tier = ctx.tier;
+    ctx.search("timeline", scenario_strategy(), tier.pick(15_000, 400_000), check);
+    let rejected = ctx
+        .stats
+        .labels
+        .get("compile=rejected_or_unobservable")
+        .copied()
+        .unwrap_or(0);
+    if rejected > 0 {
+        let why: Vec<String> = ctx
+            .stats
+            .labels
+            .keys()
+            .filter(|k| k.starts_with("infra: "))
+            .take(3)
+            .cloned()
+            .collect();
+        ctx.inconclusive(format!(
+            "{rejected} generated configuration(s) were rejected by the compiler or could not be observed: {}",
+            why.join(" | ")
+        ));
+    }
 }
